@@ -254,6 +254,7 @@ inline std::vector<Op> alphabet(int n, int m, bool small = false)
    for(int i : ri)
    {
       add(OP_CHGROW, i, 0, -1, 2, 6);
+      add(OP_CHGROW, i, 0, -1, 2, 8);      // sparse replacement whose first nonzero is not in position 0 (k-th nonzero != k-th index)
       if(!small) add(OP_CHGROW, i, 0, -INF, 0, 0);
       for(double v : SINGLES_LO) add(OP_CHGLHS, i, 0, v, 0, 0);
       for(double v : SINGLES_UP) add(OP_CHGRHS, i, 0, v, 0, 0);
@@ -284,6 +285,7 @@ inline std::vector<Op> alphabet(int n, int m, bool small = false)
    for(int j : ci)
    {
       add(OP_CHGCOL, j, 0, -1, 2, 6);
+      add(OP_CHGCOL, j, 2, -1, 2, 4);      // sparse replacement whose first nonzero is not in position 0 (k-th nonzero != k-th index)
       if(!small) add(OP_CHGCOL, j, 1, 0, INF, 0);
       for(double v : SINGLES_LO) add(OP_CHGLOWER, j, 0, v, 0, 0);
       for(double v : SINGLES_UP) add(OP_CHGUPPER, j, 0, v, 0, 0);
